@@ -12,6 +12,7 @@ import DtailModel.Lemmas.AggAlgebra
 import DtailModel.Lemmas.GenAggregate
 import DtailModel.Lemmas.AggPipeline
 import DtailModel.Lemmas.ResultOrder
+set_option autoImplicit false
 namespace Dtail.C05
 open Dtail
 
